@@ -9,6 +9,7 @@
 package avc
 
 import (
+	"bytes"
 	"encoding/hex"
 
 	"github.com/q191201771/lal/pkg/base"
@@ -30,7 +31,8 @@ func ParseSps(payload []byte, ctx *Context) (err error) {
 		}
 	}()
 
-	br := nazabits.NewBitReader(payload)
+	// 注意，需要先去掉防竞争字节（emulation_prevention_three_byte），否则防竞争字节之后的字段全部错位
+	br := nazabits.NewBitReader(nal2rbsp(payload))
 	var sps Sps
 	if err := parseSpsBasic(&br, &sps); err != nil {
 		Log.Errorf("parseSpsBasic failed. err=%+v, payload=%s", err, hex.Dump(nazabytes.Prefix(payload, 128)))
@@ -49,8 +51,24 @@ func ParseSps(payload []byte, ctx *Context) (err error) {
 	}
 	Log.Debugf("sps=%+v", sps)
 
-	ctx.Width = (sps.PicWidthInMbsMinusOne+1)*16 - (sps.FrameCropLeftOffset+sps.FrameCropRightOffset)*2
-	ctx.Height = (2-uint32(sps.FrameMbsOnlyFlag))*(sps.PicHeightInMapUnitsMinusOne+1)*16 - (sps.FrameCropTopOffset+sps.FrameCropBottomOffset)*2
+	// ISO-14496-10.pdf 7.4.2.1.1
+	// 裁剪的单位CropUnitX, CropUnitY取决于色度格式以及是否为帧编码，不是固定的2
+	chromaArrayType := sps.ChromaFormatIdc
+	if sps.ResidualColorTransformFlag == 1 { // separate_colour_plane_flag
+		chromaArrayType = 0
+	}
+	frameHeightFactor := 2 - uint32(sps.FrameMbsOnlyFlag)
+	cropUnitX := uint32(1)
+	cropUnitY := frameHeightFactor
+	switch chromaArrayType {
+	case 1: // 4:2:0
+		cropUnitX = 2
+		cropUnitY = 2 * frameHeightFactor
+	case 2: // 4:2:2
+		cropUnitX = 2
+	}
+	ctx.Width = (sps.PicWidthInMbsMinusOne+1)*16 - (sps.FrameCropLeftOffset+sps.FrameCropRightOffset)*cropUnitX
+	ctx.Height = frameHeightFactor*(sps.PicHeightInMapUnitsMinusOne+1)*16 - (sps.FrameCropTopOffset+sps.FrameCropBottomOffset)*cropUnitY
 
 	ctx.Sps = sps
 	return nil
@@ -158,7 +176,7 @@ func parseSpsBasic(br *nazabits.BitReader, sps *Sps) error {
 
 func parseSpsGamma(br *nazabits.BitReader, sps *Sps) (err error) {
 	switch sps.ProfileIdc {
-	case 100, 110, 122, 244, 44, 83, 86, 118, 128, 138, 139, 134:
+	case 100, 110, 122, 244, 44, 83, 86, 118, 128, 138, 139, 134, 135:
 		sps.ChromaFormatIdc, err = br.ReadUeGolomb() // chroma_format_idc
 		if err != nil {
 			return nazaerrors.Wrap(err)
@@ -365,4 +383,9 @@ func parseSpsGamma(br *nazabits.BitReader, sps *Sps) (err error) {
 	}
 
 	return nil
+}
+
+// nal2rbsp 去掉防竞争字节
+func nal2rbsp(nal []byte) []byte {
+	return bytes.Replace(nal, []byte{0x0, 0x0, 0x3}, []byte{0x0, 0x0}, -1)
 }
